@@ -12,7 +12,9 @@ RULE = ("generated DCOPs restricted to what the YAML format expresses: domains o
         "dcop_yaml -> load_dcop(string), load_dcop_from_file(str path), ([path]) and ([problem file, agents file]); "
         "oracle: same domains/variables/initial values, every constraint equal on every assignment (harness tables), "
         "every agent: capacity, route(a') for all pairs incl. self, hosting_cost(c) for all computations and an unknown "
-        "one; non-trivial = >= 2 constraints and >= 2 agents with routes or hosting costs; distinct by hash(case)")
+        "one; a fifth of the cases are agents / routes / hosting_costs sections written by hand in the documented forms "
+        "(global and agent-level defaults incl. 0, per-computation costs, routes given from one end, agents as map or "
+        "list), loaded and compared with what the text says; non-trivial = >= 2 constraints and >= 2 agents with routes or hosting costs; distinct by hash(case)")
 
 
 def make_case(rng):
@@ -203,11 +205,103 @@ def check_case(case, R):
     return P
 
 
+def handwritten_agents_problems(rng, R):
+    """agents / routes / hosting_costs sections written by hand in the documented YAML forms (global default, agent
+    default incl. 0, per-computation costs, routes given from one end only, agents as a map with attributes or as a
+    list): the loaded AgentDefs must answer as the text says"""
+    import yaml
+    from pydcop.dcop.yamldcop import load_dcop
+
+    P = []
+    agents = ["a%d" % i for i in range(1, rng.randint(2, 4) + 1)]
+    comps = ["v1", "v2", "c1"]
+    as_list = rng.random() < 0.3
+    caps = {a: rng.choice([10, 100]) for a in agents}
+    doc = {"name": "t", "objective": "min", "domains": {"d": {"values": [0, 1]}},
+           "variables": {"v1": {"domain": "d"}, "v2": {"domain": "d"}},
+           "constraints": {"c1": {"type": "intention", "function": "v1 + v2"}},
+           "agents": list(agents) if as_list else {a: {"capacity": caps[a]} for a in agents}}
+    spec = {"default_route": 1, "routes": {}, "global_default": None, "agent_default": {}, "specific": {}}
+    if rng.random() < 0.8:
+        r = {}
+        if rng.random() < 0.7:
+            spec["default_route"] = rng.choice([0, 2, 3.5])
+            r["default"] = spec["default_route"]
+        for i, a in enumerate(agents):
+            for b in agents[i + 1:]:
+                if rng.random() < 0.5:
+                    v = rng.choice([0, 4, 7.5, 300])
+                    spec["routes"][(a, b)] = v
+                    x, y = (a, b) if rng.random() < 0.5 else (b, a)  # written from one end only
+                    r.setdefault(x, {})[y] = v
+        doc["routes"] = r
+    if rng.random() < 0.85:
+        h = {}
+        if rng.random() < 0.7:
+            spec["global_default"] = rng.choice([0, 5, 7, 2.5])
+            h["default"] = spec["global_default"]
+        for a in agents:
+            e = {}
+            if rng.random() < 0.6:
+                spec["agent_default"][a] = rng.choice([0, 0, 3, 9.5])
+                e["default"] = spec["agent_default"][a]
+            if rng.random() < 0.6:
+                cs = {c: rng.choice([0, 1, 20]) for c in comps if rng.random() < 0.5}
+                if cs:
+                    e["computations"] = cs
+                    for c, v in cs.items():
+                        spec["specific"][(a, c)] = v
+            if e:
+                h[a] = e
+        doc["hosting_costs"] = h
+    text = yaml.safe_dump(doc, default_flow_style=False)
+    W = {"yaml": text}
+    try:
+        dcop = load_dcop(text)
+    except Exception as e:
+        return [("handwritten-agents:exception:%s" % type(e).__name__, "load_dcop raised %s: %s on\n%s" % (type(e).__name__, str(e)[:200], text))], W
+    R.count("handwritten_agent_sections_loaded")
+    if sorted(dcop.agents) != sorted(agents):
+        return [("handwritten-agents:names", "agents %r, expected %r" % (sorted(dcop.agents), agents))], W
+    for a in agents:
+        la = dcop.agents[a]
+        if not as_list and getattr(la, "capacity", None) != caps[a]:
+            P.append(("handwritten-agents:capacity", "%s capacity %r, expected %r" % (a, getattr(la, "capacity", None), caps[a])))
+        for b in agents:
+            want = 0 if a == b else spec["routes"].get((a, b), spec["routes"].get((b, a), spec["default_route"]))
+            if la.route(b) != want:
+                P.append(("handwritten-agents:route", "%s.route(%s) == %r, the text says %r\n%s" % (a, b, la.route(b), want, text)))
+        for c in comps + ["unknown_comp"]:
+            if (a, c) in spec["specific"]:
+                want = spec["specific"][(a, c)]
+            elif a in spec["agent_default"]:
+                want = spec["agent_default"][a]
+            elif spec["global_default"] is not None:
+                want = spec["global_default"]
+            else:
+                want = 0
+            if la.hosting_cost(c) != want:
+                P.append(("handwritten-agents:hosting-cost", "%s.hosting_cost(%s) == %r, the text says %r (agent default %r, global default %r)\n%s" % (
+                    a, c, la.hosting_cost(c), want, spec["agent_default"].get(a, "none"), spec["global_default"], text)))
+    return P[:3], W
+
+
 def worker(job):
     R = common.WorkerResult()
     seed = job["seed"]
     for i in range(job["lo"], job["hi"]):
         rng = common.rng_for(seed, "C14", i)
+        if i % 5 == 4:
+            try:
+                problems, W = handwritten_agents_problems(rng, R)
+            except Exception as e:
+                import traceback
+
+                problems, W = [("harness:exception:%s" % type(e).__name__, traceback.format_exc()[-900:])], {}
+            R.case(common.stable_hash(W), True, sample=W if i % 50 == 4 else None)
+            for k, m in problems:
+                R.violation(k, m, {"handwritten": W, "index": i})
+            continue
         case = make_case(rng)
         try:
             problems = check_case(case, R)
@@ -238,6 +332,11 @@ def main(chk, tier, seed):
 
 def replay(payload):
     R = common.WorkerResult()
+    if "case" not in payload["witness"]:
+        print("hand-written agents sections are replayed through the tier: VERIF_SEED=%s ./check C14 %s" % (payload["seed"], payload["tier"]))
+        print(payload["what"])
+        print("VIOLATION property=C14 replay=(recorded witness)")
+        return 1
     problems = check_case(payload["witness"]["case"], R)
     print("replay:", problems[:3])
     if problems:
